@@ -351,6 +351,9 @@ def run_B(rep, tier):
     from ..pysym.run import check, run_parallel
 
     quick = tier == "quick"
+    only_ = getattr(rep, "only", None)
+    if only_ and not ("ir/" in only_ or "numbers/" in only_ or only_ in ("quot", "rem", "mod")):
+        return
     script = _os.path.join(env.scratch(), "ir_capture.py")
     with open(script, "w") as f:
         f.write(IR_SCRIPT)
@@ -377,6 +380,8 @@ def run_B(rep, tier):
     only = getattr(rep, "only", None)
     if only:
         jobs = [j for j in jobs if only in j[0]]
+    if not jobs:
+        return
     results = run_parallel([(lambda sc=sc: check(sc, lambda: Interp(), timeout_s=240, max_paths=3000)) for _, sc, _ in jobs])
     for (name, _, meta), r in zip(jobs, results):
         rep.solver_s += r["stats"]["solver_s"]
@@ -404,6 +409,59 @@ print("REPRODUCED: {name} model {r["cex"]}: needs manual triage") ; sys.exit(1)
         rep.add(res)
 
 
+CONTAGION = MODULE + r'''
+from decimal import Decimal
+U = [0, 1, -7, 10**30, Fraction(1, 2), Fraction(-7, 3), Fraction(10**20, 3), Decimal("0.5"), Decimal("-3"), Decimal("1E+3"), 0.5, -2.0, 1e300]
+ORDER = {int: 0, Fraction: 1, Decimal: 2, float: 3}
+OPS = {"+": cfn("+"), "-": cfn("-"), "*": cfn("*"), "/": cfn("/")}
+APPLY = cfn("apply")
+def kind(v):
+    return Fraction if isinstance(v, Fraction) else type(v)
+def expected_type(op, a, b):
+    """the documented tower: float absorbs everything, Decimal absorbs exact numbers, exact results are ints when integral"""
+    ka, kb = kind(a), kind(b)
+    top = ka if ORDER[ka] >= ORDER[kb] else kb
+    return top
+def DIAG(**k):
+    a, b = U[k["i"]], U[k["j"]]
+    out = {}
+    for n, f in OPS.items():
+        try:
+            out[n] = repr(f(a, b))
+        except Exception as e:
+            out[n] = type(e).__name__
+    return {"a": repr(a), "b": repr(b), **out}
+'''
+
+
+def contagion_spec(timeout, first):
+    body = '''    a, b = U[i], U[j]
+    for name, f in OPS.items():
+        if name == "/" and b == 0:
+            continue
+        r = f(a, b)
+        want = expected_type(name, a, b)
+        if want in (int, Fraction):
+            exact = {"+": lambda: Fraction(a) + Fraction(b), "-": lambda: Fraction(a) - Fraction(b), "*": lambda: Fraction(a) * Fraction(b),
+                     "/": lambda: Fraction(a) / Fraction(b)}[name]()
+            if r != exact or not norm_ok(r) or (type(r) is int) != (exact.denominator == 1):
+                return False
+        elif type(r) is not want:
+            return False
+        # the result type depends only on the operand types: same answer through apply, and symmetric for + and *
+        r2 = APPLY(f, vec.vector([a, b]))
+        if type(r2) is not type(r) or not (r2 == r or (r != r and r2 != r2)):
+            return False
+        if name in "+*":
+            r3 = f(b, a)
+            if type(r3) is not type(r) or not (r3 == r or (r != r and r3 != r3)):
+                return False
+    return True'''
+    src = harness("i: int, j: int", body, pre=[f"i == {first}", "0 <= j < 13"], module_code=CONTAGION, warm=[(0, 4)])
+    return Spec(f"type-contagion/first-operand-{first}", src, timeout=timeout, bound="operand pair solver-chosen from a 13-element universe of int / ratio / decimal / float values incl. huge ones",
+                meta={"kind": "contagion"})
+
+
 def run(rep, tier, seed):
     rep.encoded("src/basilisp/lang/numbers.py", ["add", "subtract", "multiply", "divide", "_divide_ints", "trunc",
                                                   "_trunc_fraction", "_normalize_fraction_result"],
@@ -420,6 +478,7 @@ def run(rep, tier, seed):
         for ye, tag in ([("3", "3"), ("-2", "-2")] if quick else
                         [("3", "3"), ("-2", "-2"), ("Fraction(7, 3)", "7/3"), ("Fraction(-1, 2)", "-1/2"), ("5", "5")]):
             specs.append(qrm_ratio_spec(den, ye, tag, to))
+    specs += [contagion_spec(to * 2, f) for f in range(13)]
     specs.append(arith_spec("+", "x + y", "y", "y", "add", to))
     specs.append(arith_spec("-", "x - y", "y", "y", "sub", to))
     specs.append(arith_spec("*", "x * y", "y", "y", "mul-symbolic-y", to))
